@@ -169,9 +169,33 @@ func defaultAlg(k *signKey) string {
 }
 
 // mintJWT builds header.payload.signature with the given header and claims, signed by k under alg.
+// The claims member "__tail" (a list of name/value pairs) is not a claim: its pairs are written after the other members, in
+// the order given (encoding/json sorts the members of a map; a provider's encoder need not, and where a name occurs twice or in two
+// spellings the position decides what a lenient decoder sees).
 func mintJWT(k *signKey, alg string, header, claims M) string {
 	hb, _ := json.Marshal(header)
+	var tail [][2]interface{}
+	if t, ok := claims["__tail"].([][2]interface{}); ok {
+		tail = t
+		c2 := M{}
+		for n, v := range claims {
+			if n != "__tail" {
+				c2[n] = v
+			}
+		}
+		claims = c2
+	}
 	cb, _ := json.Marshal(claims)
+	for _, p := range tail {
+		nb, _ := json.Marshal(p[0])
+		vb, _ := json.Marshal(p[1])
+		if len(cb) > 2 {
+			cb = append(cb[:len(cb)-1], ',')
+		} else {
+			cb = cb[:len(cb)-1]
+		}
+		cb = append(append(append(append(cb, nb...), ':'), vb...), '}')
+	}
 	in := b64.EncodeToString(hb) + "." + b64.EncodeToString(cb)
 	sig := signBytes(k, alg, []byte(in))
 	return in + "." + b64.EncodeToString(sig)
@@ -219,7 +243,11 @@ type provider struct {
 	via303  bool
 	pending map[string]M
 	pendN   int
+	issuedRT map[string]bool // every refresh token this provider has handed out
 }
+
+// issued: called from the onRefresh / onExchange callbacks, which run with p.mu held
+func (p *provider) issued(rt string) bool { return p.issuedRT[rt] }
 
 func newProvider(ks ...*signKey) *provider {
 	if len(ks) == 0 {
@@ -359,6 +387,12 @@ func (p *provider) RoundTrip(r *http.Request) (*http.Response, error) {
 			m := M{"id_token": ans.idToken, "access_token": "opaque-access-token", "expires_in": 3600, "token_type": "Bearer"}
 			if ans.refresh != "" {
 				m["refresh_token"] = ans.refresh
+				p.mu.Lock()
+				if p.issuedRT == nil {
+					p.issuedRT = map[string]bool{}
+				}
+				p.issuedRT[ans.refresh] = true
+				p.mu.Unlock()
 			}
 			if p.via303 {
 				p.mu.Lock()
